@@ -614,7 +614,29 @@ func (g *genState) mutateJSON(doc string) string {
 
 func (g *genState) exotic(p *MPayload, memo string) string {
 	r := g.r
-	switch r.Intn(8) {
+	switch r.Intn(11) {
+	case 8:
+		// Hyperlane: optional-looking fields absent or null
+		m := memo
+		for _, k := range []string{`"gas_limit":"0",`, `,"max_fee":{"denom":"` + p.MaxFeeDenom + `","amount":"0"}`, `"custom_hook_metadata":"",`} {
+			if r.Intn(2) == 0 {
+				m = strings.Replace(m, k, "", 1)
+			}
+		}
+		return m
+	case 9:
+		// byte fields of the wrong length
+		short := base64.StdEncoding.EncodeToString(r.Bytes(1 + r.Intn(40)))
+		for _, k := range []string{`"recipient":"`, `"token_id":"`, `"mint_recipient":"`, `"destination_caller":"`, `"custom_hook_id":"`} {
+			if i := strings.Index(memo, k); i >= 0 && r.Intn(2) == 0 {
+				j := strings.Index(memo[i+len(k):], `"`)
+				return memo[:i+len(k)] + short + memo[i+len(k)+j:]
+			}
+		}
+		return strings.Replace(memo, `"custom_hook_id":null`, `"custom_hook_id":"`+short+`"`, 1)
+	case 10:
+		m := strings.Replace(memo, `"gas_limit":"0"`, `"gas_limit":`+pickStr(r, []string{"null", `""`, `"-1"`, `"x"`}), 1)
+		return strings.Replace(m, `"amount":"0"}`, `"amount":`+pickStr(r, []string{"null", `""`, `"-1"`})+`}`, 1)
 	case 0:
 		m, _ := replaceOnce(memo, `"protocol_id":"`+p.Proto+`"`, fmt.Sprintf(`"protocol_id":%d`, protoNum(p.Proto)))
 		return m
@@ -974,6 +996,9 @@ func (g *genState) genOrbiterAdmin(s *Sim) Op {
 		if r.Intn(10) == 0 {
 			op.N = 4294967295
 		}
+	}
+	if r.Intn(8) == 0 {
+		op.Fail = true // the message is followed by one that fails: nothing of the tx may survive
 	}
 	if r.Intn(20) == 0 && (op.Msg == "PauseProtocol" || op.Msg == "UnpauseProtocol") {
 		op.Proto = pickStr(r, []string{"PROTOCOL_UNSUPPORTED", "PROTOCOL_X", "", "2"})
